@@ -33,27 +33,27 @@ type Violation struct {
 
 // Report is what one phase of one check writes.
 type Report struct {
-	Property    string         `json:"property"`
-	Phase       string         `json:"phase"`
-	Engine      string         `json:"engine"`
-	Tier        string         `json:"tier"`
-	Evaluations int64          `json:"evaluations"`
-	States      int64          `json:"states"`
-	Transitions int64          `json:"transitions"`
-	Paths       int64          `json:"paths"`
-	Nontrivial  int64          `json:"nontrivial"`
-	Outcomes    int64          `json:"outcomes"`
-	Exhaustive  bool           `json:"exhaustive"`
-	CapsHit     []string       `json:"caps_hit,omitempty"`
-	Bounds      map[string]any `json:"bounds,omitempty"`
-	Rule        string         `json:"rule,omitempty"`
-	Samples     []any          `json:"samples,omitempty"`
-	Floors      map[string][2]int64 `json:"floors,omitempty"` // name -> [required minimum, measured]
-	Extra       map[string]any `json:"extra,omitempty"`
-	Violations  []Violation    `json:"violations,omitempty"`
-	ViolationsTotal int64      `json:"violations_total"`
-	HarnessErrors []string     `json:"harness_errors,omitempty"`
-	WallS       float64        `json:"wall_s"`
+	Property        string              `json:"property"`
+	Phase           string              `json:"phase"`
+	Engine          string              `json:"engine"`
+	Tier            string              `json:"tier"`
+	Evaluations     int64               `json:"evaluations"`
+	States          int64               `json:"states"`
+	Transitions     int64               `json:"transitions"`
+	Paths           int64               `json:"paths"`
+	Nontrivial      int64               `json:"nontrivial"`
+	Outcomes        int64               `json:"outcomes"`
+	Exhaustive      bool                `json:"exhaustive"`
+	CapsHit         []string            `json:"caps_hit,omitempty"`
+	Bounds          map[string]any      `json:"bounds,omitempty"`
+	Rule            string              `json:"rule,omitempty"`
+	Samples         []any               `json:"samples,omitempty"`
+	Floors          map[string][2]int64 `json:"floors,omitempty"` // name -> [required minimum, measured]
+	Extra           map[string]any      `json:"extra,omitempty"`
+	Violations      []Violation         `json:"violations,omitempty"`
+	ViolationsTotal int64               `json:"violations_total"`
+	HarnessErrors   []string            `json:"harness_errors,omitempty"`
+	WallS           float64             `json:"wall_s"`
 
 	mu    sync.Mutex
 	sigs  map[string]int
